@@ -185,6 +185,8 @@ class Evaluator:
         self.inline_local = set(inline_local)   # local fn paths to inline at call sites
         self.max_depth = max_depth
         self._summ = {}
+        self.pc = []               # path condition stack: ("if", cond, polarity) / ("arm", scrut, pat, guard)
+        self.sites = None          # when a list: dicts {kind,node,term,pc} for calls / arithmetic / loops
         self.trace = None          # when a list: every call term evaluated is appended (with resolved upvars)
         self.conds = None          # when a list: every branch condition / match scrutinee / guard term
 
@@ -217,6 +219,31 @@ class Evaluator:
         self._summ[path] = res
         self._last_state = st
         return res
+
+    def sited(self, path):
+        """[site dicts] of one function family: calls, arithmetic, indexing and loops with their path conditions."""
+        old = (self.trace, self.conds, self.sites)
+        self.trace, self.conds, self.sites = [], [], []
+        try:
+            env = self.fn_env(path)
+            st = _State(env)
+            self.ev(self.prog.root(path), st, 0)
+            self.last_assigned = st.assigned
+            # one entry per THIR node: prefer the most resolved evaluation
+            by = {}
+            for sdict in self.sites:
+                by.setdefault(id(sdict["node"]), []).append(sdict)
+            out = []
+            for group in by.values():
+                def score(d):
+                    t = d["term"]
+                    cp = len({y.a for y in subterms(t) if y.k == "cparam"}) if t is not None else 0
+                    cpc = sum(len({y.a for y in subterms(c[1]) if y.k == "cparam"}) for c in d["pc"])
+                    return cp + cpc
+                out.append(min(group, key=score))
+            return out
+        finally:
+            self.trace, self.conds, self.sites = old
 
     def traced(self, path):
         """(summary, [call terms], [condition terms]) of one function, closures explored, upvars resolved."""
@@ -351,11 +378,17 @@ class Evaluator:
         if k == "Call":
             return self.ev_call(e, st, depth)
         if k in ("Binary",):
-            return Tm("bin", (e["op"], self.ev(e["l"], st, depth), self.ev(e["r"], st, depth)), e)
+            t = Tm("bin", (e["op"], self.ev(e["l"], st, depth), self.ev(e["r"], st, depth)), e)
+            if self.sites is not None:
+                self.sites.append({"kind": "bin", "node": e, "term": t, "pc": tuple(self.pc)})
+            return t
         if k == "Logical":
             return Tm("logic", (e["op"], self.ev(e["l"], st, depth), self.ev(e["r"], st, depth)), e)
         if k == "Unary":
-            return Tm("un", (e["op"], self.ev(e["e"], st, depth)), e)
+            t = Tm("un", (e["op"], self.ev(e["e"], st, depth)), e)
+            if self.sites is not None:
+                self.sites.append({"kind": "un", "node": e, "term": t, "pc": tuple(self.pc)})
+            return t
         if k == "Cast":
             return Tm("cast", (e["ty"], self.ev(e["e"], st, depth)), e)
         if k == "Tuple":
@@ -379,7 +412,10 @@ class Evaluator:
         if k in ("NamedConst", "ConstParam", "StaticRef", "ThreadLocalRef", "ConstBlock"):
             return Tm("const", (e["def"],), e)
         if k == "Index":
-            return Tm("index", (self.ev(e["e"], st, depth), self.ev(e["index"], st, depth)), e)
+            t = Tm("index", (self.ev(e["e"], st, depth), self.ev(e["index"], st, depth)), e)
+            if self.sites is not None:
+                self.sites.append({"kind": "index", "node": e, "term": t, "pc": tuple(self.pc)})
+            return t
         if k == "If":
             return self.ev_if(e, st, depth)
         if k == "Let":
@@ -396,7 +432,10 @@ class Evaluator:
             return Tm("tuple", (), e)
         if k == "AssignOp":
             cur = self.ev(e["l"], st, depth)
-            self.assign(e["l"], Tm("bin", (e["op"].replace("Assign", ""), cur, self.ev(e["r"], st, depth)), e), st, depth)
+            t = Tm("bin", (e["op"].replace("Assign", ""), cur, self.ev(e["r"], st, depth)), e)
+            if self.sites is not None:
+                self.sites.append({"kind": "assignop", "node": e, "term": t, "pc": tuple(self.pc)})
+            self.assign(e["l"], t, st, depth)
             return Tm("tuple", (), e)
         if k == "Return":
             if "e" in e:
@@ -462,6 +501,8 @@ class Evaluator:
                     eff = Tm("call", (name,) + tuple(args), e)
                     st.env[vid] = Tm("mutated", (prev, eff), e)
                     st.assigned.setdefault(vid, []).append(eff)
+        if self.sites is not None:
+            self.sites.append({"kind": "call", "node": e, "term": Tm("call", (name,) + tuple(args), e), "pc": tuple(self.pc)})
         if self.trace is not None:
             self.trace.append(Tm("call", (name,) + tuple(args), e))
             self.explore_hof(name, fn, args, depth)
@@ -582,9 +623,13 @@ class Evaluator:
                 self.conds.append(scrut)
             st_then = st.fork()
             self.bind(cond["pat"], scrut, st_then.env)
+            self.pc.append(("arm", scrut, cond["pat"], None))
             tt = self.ev(e["then"], st_then, depth)
+            self.pc.pop()
             st_else = st.fork()
+            self.pc.append(("notarm", scrut, cond["pat"], None))
             te = self.ev(e["else"], st_else, depth) if "else" in e else Tm("tuple", ())
+            self.pc.pop()
             st.join([st_then, st_else])
             wild = {"k": "Wild", "ty": cond["pat"].get("ty", "")}
             return Tm("match", (scrut, ((cond["pat"], None, tt), (wild, None, te))), e)
@@ -592,9 +637,13 @@ class Evaluator:
         if self.conds is not None:
             self.conds.append(c)
         st_then = st.fork()
+        self.pc.append(("if", c, True))
         tt = self.ev(e["then"], st_then, depth)
+        self.pc.pop()
         st_else = st.fork()
+        self.pc.append(("if", c, False))
         te = self.ev(e["else"], st_else, depth) if "else" in e else Tm("tuple", ())
+        self.pc.pop()
         st.join([st_then, st_else])
         return Tm("if", (c, tt, te), e)
 
@@ -606,6 +655,8 @@ class Evaluator:
                 inner = self.ev(sc["args"][0], st, depth)
                 return Tm("try", (inner,), e)
         if src.startswith("ForLoopDesugar"):
+            if self.sites is not None:
+                self.sites.append({"kind": "forloop", "node": e, "term": None, "pc": tuple(self.pc), "env": dict(st.env)})
             return self.ev_for(e, st, depth)
         scrut = self.ev(e["scrut"], st, depth)
         if self.conds is not None:
@@ -618,7 +669,9 @@ class Evaluator:
             g = self.ev(a["guard"], s2, depth) if "guard" in a else None
             if g is not None and self.conds is not None:
                 self.conds.append(g)
+            self.pc.append(("arm", scrut, a["pat"], g))
             b = self.ev(a["body"], s2, depth)
+            self.pc.pop()
             arms.append((a["pat"], g, b))
             forks.append(s2)
         st.join(forks)
@@ -657,6 +710,8 @@ class Evaluator:
         return Tm("tuple", (), e)
 
     def ev_loop(self, e, st, depth):
+        if self.sites is not None:
+            self.sites.append({"kind": "loop", "node": e, "term": None, "pc": tuple(self.pc), "env": dict(st.env)})
         assigned = _assigned_vars(e["body"])
         s2 = st.fork()
         for v in assigned:
